@@ -73,11 +73,25 @@ def resource_risky(s):
         return True
     if re.search(r"\*\*\s*[\(\s+-]*\d{4,}", s) or re.search(r"[eE][+-]?\d{3,}", s):
         return True
+    # any numeric literal right after ** whose magnitude is large (0.5**1e32 wedges sympy's Rational power)
+    for m in re.finditer(r"\*\*\s*[\(\s+-]*(\d[\d_]*\.?[\d_]*(?:[eE][+-]?\d+)?|\.\d+(?:[eE][+-]?\d+)?)", s):
+        try:
+            if abs(float(m.group(1).replace("_", ""))) > 300:
+                return True
+        except ValueError:
+            return True
+    # numeric literals with a two-digit decimal exponent anywhere (1e32 as a base of a later ** or as an exponent of a product)
+    if "**" in s and re.search(r"\d[eE][+-]?\d{2,}", s):
+        return True
     return False
 
 
 def facts(u):
-    return float(u.base_value), R.dimvec_of(u.dimensions), float(u.base_offset)
+    try:
+        dv = R.dimvec_of(u.dimensions)
+    except TypeError:
+        dv = ("irrational-exponent", str(u.dimensions))  # m**(2**(2/3)/2): not a rational dimension vector; compared as printed
+    return float(u.base_value), dv, float(u.base_offset)
 
 
 def same(a, b, tol=1e-12):
@@ -292,6 +306,10 @@ def _case_arith(case, part):
         if custom:
             u = u * Unit("code_length", registry=reg) / Unit("code_mass", registry=reg) ** 2
         x = u * v / w
+        s0 = float(x.base_value)
+        if not np.isfinite(s0) or s0 == 0 or abs(np.log10(abs(s0))) > 250:
+            part.count("excluded_range")  # the scale under/overflowed in float before any printing: 0.0**-1 etc. is not the claim's subject
+            return out
         if p != 1:
             x = x ** (float(p) if p.denominator in (2, 4) else p)
         if history:
@@ -436,24 +454,51 @@ def run_fuzz(ctx, seconds):
         return
     seeds = os.path.join(core.VERIF, "vf", "fuzz", "seeds")
     env = dict(os.environ)
-    cmd = [script, os.path.join(work, "corpus"), seeds, f"-max_total_time={seconds}", "-timeout=10", "-rss_limit_mb=4096", f"-seed={ctx.seed}", "-max_len=96",
-           f"-artifact_prefix={work}/artifacts/", f"-dict={os.path.join(core.VERIF, 'vf', 'fuzz', 'unit.dict')}", "-print_final_stats=1"]
-    p = subprocess.run(cmd, capture_output=True, text=True, env=env, timeout=seconds + 300)
-    tail = (p.stdout + p.stderr)[-3000:]
-    m = re.search(r"stat::number_of_executed_units:\s*(\d+)", tail)
-    execs = int(m.group(1)) if m else 0
+    import time as _time
+
+    t_end = _time.time() + seconds
+    execs, rounds, hangs, rc = 0, 0, [], 0
+    outputs = []
+    # libFuzzer stops at the first input that exceeds -timeout (a wedged big-number power is a liveness matter, not a violation
+    # of the claim): such inputs are moved aside, reported, and the campaign is resumed on the same corpus until the budget is used
+    while _time.time() < t_end - 5 and rounds < 40:
+        left = int(t_end - _time.time())
+        cmd = [script, os.path.join(work, "corpus"), seeds, f"-max_total_time={left}", "-timeout=10", "-rss_limit_mb=4096", f"-seed={ctx.seed + rounds}", "-max_len=96",
+               f"-artifact_prefix={work}/artifacts/", f"-dict={os.path.join(core.VERIF, 'vf', 'fuzz', 'unit.dict')}", "-print_final_stats=1"]
+        try:
+            p = subprocess.run(cmd, capture_output=True, text=True, env=env, timeout=left + 120)
+        except subprocess.TimeoutExpired:
+            ctx.notes.append("fuzz process did not stop by itself and was killed")
+            break
+        rounds += 1
+        txt = p.stdout + p.stderr
+        outputs.append(txt)
+        m = re.search(r"stat::number_of_executed_units:\s*(\d+)", txt[-3000:])
+        execs += int(m.group(1)) if m else 0
+        rc = p.returncode
+        if any(l.startswith("VF-VIOLATION ") for l in txt.splitlines()):
+            break
+        if p.returncode != 0 and ("timeout" in txt[-3000:].lower() or "ALARM" in txt[-3000:]):
+            for f in sorted(os.listdir(os.path.join(work, "artifacts"))):
+                if f.startswith("timeout-"):
+                    try:
+                        hangs.append(open(os.path.join(work, "artifacts", f), "rb").read()[:96].decode("utf-8", "replace"))
+                    except Exception:
+                        pass
+                    os.replace(os.path.join(work, "artifacts", f), os.path.join(work, "artifacts", "seen-" + f))
+            continue
+        if p.returncode != 0:
+            ctx.notes.append("fuzz campaign ended abnormally: " + txt[-300:])
+            break
     ctx.evaluations += execs
-    ctx.extra["fuzz"] = {"executions": execs, "seconds": seconds, "returncode": p.returncode}
-    for line in (p.stdout + p.stderr).splitlines():
-        if line.startswith("VF-VIOLATION "):
-            key, _, payload = line[len("VF-VIOLATION "):].partition(" :: ")
-            ctx.violation(key, {"string": payload, "found_by": "atheris"})
-    if p.returncode != 0 and not any(l.startswith("VF-VIOLATION ") for l in (p.stdout + p.stderr).splitlines()):
-        if "timeout" in tail.lower() or "ALARM" in tail:
-            ctx.budget_exhausted = True
-            ctx.notes.append("fuzz campaign ended on a libFuzzer timeout (resource hang): inconclusive")
-        else:
-            ctx.notes.append("fuzz campaign ended abnormally: " + tail[-300:])
+    ctx.extra["fuzz"] = {"executions": execs, "seconds": seconds, "rounds": rounds, "returncode": rc, "inputs_that_exceeded_10s": hangs[:10]}
+    if hangs:
+        ctx.notes.append(f"{len(hangs)} fuzz input(s) exceeded the 10 s per-input limit (resource hang, liveness is not decided here); the campaign was resumed after each")
+    for txt in outputs:
+        for line in txt.splitlines():
+            if line.startswith("VF-VIOLATION "):
+                key, _, payload = line[len("VF-VIOLATION "):].partition(" :: ")
+                ctx.violation(key, {"string": payload, "found_by": "atheris"})
 
 
 def run(ctx):
@@ -473,7 +518,7 @@ def run(ctx):
     names = [n for n, _, _ in G.all_unit_names()]
     ctx.merge(core.pmap(MOD, "part_atomic", [{"names": sh} for sh in core.shards(names, 16)], timeout=ctx.pick(300, 900)))
     ctx.merge(core.pmap(MOD, "part_nonvocab", [{}], timeout=120))
-    n = ctx.pick(1600, 48000)
+    n = ctx.pick(1600, 16000)
     ctx.merge(core.pmap(MOD, "part_random", [{"n": n // 16, "seed": ctx.seed * 1000 + 10 * i} for i in range(16)], timeout=ctx.pick(600, 3600)))
     if not ctx.quick:
         run_fuzz(ctx, 600)
